@@ -68,6 +68,12 @@ def check_membership(coarse, fine, shared_atoms=False):
             out.append(('coarse-graph-members', 'coarse node %r (%s): graph has %s, fine nodes recording it: %s' % (
                 k, coarse.nodes[k].get('fragname'), sorted(got), sorted(want))))
         else:
+            # the membership graph is the subgraph of the fine graph: same nodes with the same attributes, induced edges
+            diff = [n for n in want if dict(g.nodes[n]) != dict(fine.nodes[n])]
+            if diff:
+                n = diff[0]
+                out.append(('coarse-graph-node-attributes', 'coarse node %r: graph node %r has %s, the fine node has %s' % (
+                    k, n, _short(dict(g.nodes[n])), _short(dict(fine.nodes[n])))))
             induced = {frozenset(e) for e in fine.subgraph(want).edges}
             if {frozenset(e) for e in g.edges} != induced:
                 out.append(('coarse-graph-edges', 'coarse node %r: graph edges %s, induced fine edges %s' % (
